@@ -11,6 +11,15 @@ Theorem C06_nothing_left_behind :
 Proof. exact stream_frames_flushes. Qed.
 Print Assumptions C06_nothing_left_behind.
 
+(* The same for the rdflib copies of the three generators (hand-copied in the code, hence modelled
+   and proved separately): Graph / Dataset / generator input, any stream class. *)
+From PJ.Proofs Require Import RdflibFlush.
+Theorem C06_nothing_left_behind_rdflib :
+  forall (d : rdata) (s s' : stream) (evs : list tev),
+    rdf_stream_frames d s = (s', evs) -> raised evs = None -> fl_rows (st_flow s') = [].
+Proof. exact rdf_stream_frames_flushes. Qed.
+Print Assumptions C06_nothing_left_behind_rdflib.
+
 (* A flush neither loses nor invents rows: what leaves in the frame plus what stays is what was there. *)
 Theorem C06_flush_conserves_rows :
   forall f : flow,
